@@ -598,8 +598,9 @@ func (h *c19Hist) send(p firewall.Packet, in bool, peer *c19Peer, why string) (p
 			fl = nil
 		case fl != nil:
 			state = "existing-flow"
-			if (fl.lazy || h.wraps > fl.wraps || !origAll) && !(in && fl.origIn) && !(!in && fl.origOut) {
-				// the implementation may have forgotten the flow already; then this packet re-creates it
+			if (fl.lazy || h.wraps > fl.wraps || !origAll || idle >= fl.t-h.cacheD) && !(in && fl.origIn) && !(!in && fl.origOut) {
+				// the implementation may have forgotten the flow already (lazy revalidation, or idle exactly at
+				// the timeout / within the cache margin of it); then this packet re-creates it
 				state = "existing-or-recreated-flow"
 				fl.origIn, fl.origOut = true, true
 			}
